@@ -21,7 +21,7 @@ import common
 
 PROP = "C14"
 RULE = ("(A) seeded sessions of 20-60 [40-200] requests over 2 healthy clients and up to 4 raw adversary connections against a live server "
-        "(pool with 0 cores: tasks stay submitted; pool with 64 cores: every task runs to its final state before the next request): "
+        "(pool with 0 cores: tasks stay submitted; pool with 2 cores: every task runs to its final state before the next request, so a core that a badly shaped request leaks is missed at once): "
         "valid enqueue/state/states/cancel/close, enqueue with extra keys, with missing or wrong-typed fields, unknown kinds, objects without "
         "__kind__, non-objects, invalid UTF-8, truncated JSON, an unterminated partial line followed by a disconnect, a 100 kB line, "
         "cancel / state of unknown, negative, float, boolean, string and unhashable ids, resets (RST) with and without unread replies, "
@@ -675,7 +675,7 @@ def run(chk):
                 chk.violation({"kind": "chaos", "corpus": fn}, dict(entry, problems=res["problems"][:10], what="under misbehaving clients: " + res["problems"][0]))
         chk.count("corpus")
     nA = 240 if quick else 4000
-    args = [(base + i, 0 if i % 2 else 64, chk.rng.randint(20, 60) if quick else chk.rng.randint(40, 200)) for i in range(nA)]
+    args = [(base + i, 0 if i % 2 else 2, chk.rng.randint(20, 60) if quick else chk.rng.randint(40, 200)) for i in range(nA)]
     for k in range(0, len(args), 48):        # in batches: a broken server makes every session wait for its time-outs
         check_sessions(chk, common.pmap(one_session, args[k:k + 48], procs=12))
         if chk.violations:
